@@ -24,20 +24,20 @@ func init() {
 
 // tunEnd is one raw endpoint of a tunnel.
 type tunEnd struct {
-	k      *kernel.K
-	name   string
-	c      *simnet.Conn
-	plan   []byte // bytes this end will write
-	chunks []int
-	sent   int
-	ci     int
-	recv   []byte
-	sawEOF bool
-	sawRST bool
-	closed bool
+	k       *kernel.K
+	name    string
+	c       *simnet.Conn
+	plan    []byte // bytes this end will write
+	chunks  []int
+	sent    int
+	ci      int
+	recv    []byte
+	sawEOF  bool
+	sawRST  bool
+	closed  bool
 	eofStep int
-	ready  bool // may start writing
-	hold   bool
+	ready   bool // may start writing
+	hold    bool
 }
 
 func (e *tunEnd) canWrite() bool {
